@@ -33,7 +33,7 @@ def check(prog: Program, tier: str) -> Result:
     )
     res.trusted_base = ["CPython ast", "sa/ownership.py abstract interpreter",
                         "hand-confirmed result shapes of core.walk, walk_wildcard, walk_sequence, filter_nodes, match_template, merge_matches, _group_nodes_in_scope (elements derive from their first argument)"]
-    res.assumptions = ["ast.fix_missing_locations only fills absent position attributes (no change to parsed nodes)",
+    res.assumptions = ["ast.fix_missing_locations only fills absent position attributes: no change to parsed nodes, but a mutation of the position-less nodes of compiled templates (modelled)",
                        "a NodeTransformer pass cannot change a leaf node (ast.Name / ast.Constant have no AST-valued fields besides the shared context singleton)",
                        "containers are tracked one level deep with tuple shapes; deeper aliasing degrades to 'other' (no report)"]
     own = Ownership(prog)
@@ -172,6 +172,9 @@ def _r5_3(prog: Program, res: Result) -> None:
 from ..selftest import Variant  # noqa: E402
 
 VARIANTS = [
+    Variant("fix-missing-locations-on-template-parts", "FIRE", "performance",
+            "            replacement = ast.Call(func=func, args=[value] + args, keywords=keywords)\n            yield node, replacement\n",
+            "            replacement = ast.Call(func=func, args=[value] + args, keywords=keywords)\n            yield node, ast.fix_missing_locations(ast.copy_location(replacement, node))\n", "R5.1"),
     Variant("move-before-loop-no-copy", "FIRE", "fixes", "            new_node = copy.copy(node)\n            new_node.lineno = scope.lineno - 1", "            new_node = node\n            new_node.lineno = scope.lineno - 1", "R5.1"),
     Variant("with-added-indent-shallow", "FIRE", "parsing", "    clone = copy.deepcopy(node)\n", "    clone = copy.copy(node)\n", "R5.1"),
     Variant("sort-cached-body", "FIRE", "fixes", "    root = core.parse(source)\n\n    for scope in core.walk(root, (ast.For, ast.While)):",
